@@ -120,7 +120,7 @@ let tick_of_flags (fl : int) (b : int) : tick =
   { t_bit = fl land 1 <> 0; t_popen = fl land 2 <> 0; t_pclose = fl land 4 <> 0; t_eq = n_of_int b }
 
 (* replay an item stream through the receiver model; returns events in order *)
-let rx_replay (cfg : rcfg) (items : string) : string =
+let rx_replay_st (cfg : rcfg) (items : string) : string * rx =
   let st = ref rx_init in
   let evs = Buffer.create 4096 in
   let first = ref true in
@@ -160,7 +160,37 @@ let rx_replay (cfg : rcfg) (items : string) : string =
         end)
       (String.split_on_char ',' items);
   let r = if Buffer.length evs = 0 then "-" else Buffer.contents evs in
-  match !bad with None -> r | Some m -> m ^ " " ^ r
+  ((match !bad with None -> r | Some m -> m ^ " " ^ r), !st)
+
+let rx_replay cfg items = fst (rx_replay_st cfg items)
+
+(* expand an item-token string into the model's item list *)
+let items_of_tokens (items : string) : item list =
+  let acc = ref [] in
+  let push_n n = for _ = 1 to n do acc := NoTick :: !acc done in
+  if items <> "-" then
+    List.iter (fun tok ->
+        if tok <> "" then begin
+          let kind = tok.[0] in
+          let body = String.sub tok 1 (String.length tok - 1) in
+          match kind with
+          | 'G' -> push_n (int_of_string body)
+          | 'T' ->
+            (match String.split_on_char ':' body with
+             | gap :: fl :: rest ->
+               push_n (int_of_string gap);
+               let b = (match rest with [ h ] -> int_of_string ("0x" ^ h) | _ -> 0) in
+               acc := Tick (tick_of_flags (int_of_string fl) b) :: !acc
+             | _ -> failwith "bad tick token")
+          | _ -> failwith "bad item token"
+        end)
+      (String.split_on_char ',' items);
+  List.rev !acc
+
+let msg_short (m : message) : string =
+  match m with
+  | EOM -> "eom"
+  | SOM h -> Printf.sprintf "som:%s:%d:%d" (hex_of_nl h.h_text) (int_of_n h.h_parity) (int_of_n h.h_voting)
 
 let handle (line : string) : string =
   let toks = List.filter (fun s -> s <> "") (String.split_on_char ' ' line) in
@@ -303,6 +333,17 @@ let handle (line : string) : string =
                 fc = { max_prefix_bit_errors = n_of_int (int_of_string pfx); max_invalid_bytes = n_of_int (int_of_string inv) };
                 input_rate = n_of_int (int_of_string rate) } in
     rx_replay cfg items
+  | "rxflush" :: rate :: pfx :: inv :: pre :: items :: fl ->
+    let cfg = { preamble_max_errors = n_of_int (int_of_string pre);
+                fc = { max_prefix_bit_errors = n_of_int (int_of_string pfx); max_invalid_bytes = n_of_int (int_of_string inv) };
+                input_rate = n_of_int (int_of_string rate) } in
+    let (evs, st0) = rx_replay_st cfg items in
+    let st = ref st0 in
+    let res = List.map (fun fitems ->
+        let (m, s') = flush (nat_of_int 200) cfg !st (items_of_tokens fitems) in
+        st := s';
+        match m with Some mm -> msg_short mm | None -> "none") fl in
+    evs ^ "|" ^ (if res = [] then "-" else String.concat "/" res)
   | [ "utf8"; s ] -> if valid_utf8 (nl_of_hex s) then "1" else "0"
   | _ -> Driver_ext.handle toks
 
